@@ -51,6 +51,9 @@ type scheduler struct {
 	gs       []*goroutine
 	cur      *goroutine
 	explore  bool
+	rr       bool
+	preemptBound int // explore mode: max number of non-forced switches (-1 = unbounded)
+	npreempt int
 	race     bool
 	finished chan struct{}
 	result   pathEnd
@@ -69,7 +72,7 @@ type shadowCell struct {
 }
 
 func newScheduler(ps *pathState) *scheduler {
-	return &scheduler{ps: ps, finished: make(chan struct{}), shadow: map[*value]*shadowCell{}}
+	return &scheduler{ps: ps, finished: make(chan struct{}), shadow: map[*value]*shadowCell{}, preemptBound: -1}
 }
 
 func (s *scheduler) finish(pe pathEnd) {
@@ -178,10 +181,30 @@ func (s *scheduler) pick(cur *goroutine, canStay bool) *goroutine {
 	if len(cand) == 0 {
 		return nil
 	}
+	curRunnable := canStay && s.runnable(cur)
 	if s.explore && len(cand) > 1 {
-		return cand[s.ps.choose('s', len(cand))]
+		// preemption bounding: once the budget of non-forced switches is used
+		// up, a goroutine that can continue does continue
+		if curRunnable && s.preemptBound >= 0 && s.npreempt >= s.preemptBound {
+			return cur
+		}
+		g := cand[s.ps.choose('s', len(cand))]
+		if curRunnable && g != cur {
+			s.npreempt++
+		}
+		return g
 	}
-	if canStay && s.runnable(cur) && !s.explore {
+	if s.rr {
+		// fair deterministic schedule: at every scheduling point hand over to
+		// the next runnable goroutine in round-robin order
+		for _, g := range cand {
+			if g != cur {
+				return g
+			}
+		}
+		return cand[0]
+	}
+	if curRunnable && !s.explore {
 		return cur
 	}
 	return cand[0]
@@ -224,7 +247,7 @@ func (s *scheduler) block(g *goroutine, pred func() bool, desc string) {
 
 // preempt is a scheduling point at which g could continue (explore mode only).
 func (s *scheduler) preempt(g *goroutine) {
-	if s.explore && len(s.gs) > 1 {
+	if (s.explore || s.rr) && len(s.gs) > 1 {
 		g.pos = s.ps.curPos
 		s.yield(g, false)
 	}
